@@ -182,6 +182,29 @@ pub fn gen_c14(out: &mut impl Write, seed: u64, thorough: bool) {
         let c = (0..7).map(|i| f(i, &mut r)).collect::<Vec<_>>().join(",");
         writeln!(out, "claims.enc {c}").unwrap();
     }
+    // the Json<T> wrapper and the claims decoder against plain serde_json on raw texts: complete values followed by more bytes,
+    // surrounding whitespace, truncations, non-object values, empty input, deep nesting, big numbers
+    {
+        let bases: Vec<&[u8]> = vec![b"{}", b"{\"sub\":\"alice\"}", b"{\"iss\":\"a\",\"x\":[1,2,{\"y\":null}]}", b"[]", b"[1,2]", b"1", b"\"s\"", b"null", b"true", b"1e400", b"-0", b"{\"exp\":\"2024-01-01T00:00:00Z\"}"];
+        let tails: Vec<&[u8]> = vec![b"", b" ", b"\n", b"\t\r\n ", b"x", b"{}", b",", b"\0", b"\0\0\0\0", b"}", b"]", b" {}", b"\xef\xbb\xbf", b"//c", b"garbage"];
+        let heads: Vec<&[u8]> = vec![b"", b" ", b"\n\t", b"\xef\xbb\xbf", b"x", b","];
+        for b in &bases {
+            for tl in &tails {
+                for h in &heads {
+                    if !h.is_empty() && !tl.is_empty() && r.below(3) != 0 { continue; }
+                    let mut v = h.to_vec(); v.extend_from_slice(b); v.extend_from_slice(tl);
+                    writeln!(out, "o.json {}", hex(&v)).unwrap();
+                }
+            }
+            for cut in 1..b.len() {
+                writeln!(out, "o.json {}", hex(&b[..cut])).unwrap();
+            }
+        }
+        writeln!(out, "o.json -").unwrap();
+        let deep: Vec<u8> = std::iter::repeat(b'[').take(200).chain(std::iter::repeat(b']').take(200)).collect();
+        writeln!(out, "o.json {}", hex(&deep)).unwrap();
+        writeln!(out, "o.json {}", hex(b"{\"a\":1,\"a\":2}")).unwrap();
+    }
     let n = if thorough { 20000 } else { 1500 };
     for _ in 0..n {
         let t = |r: &mut Rng| -> String {
